@@ -334,7 +334,13 @@ def gassner_relation(case, rule):
         rule_curve = wc.fatigue.miner_elementary()
     else:
         if not info['max_all'] >= SD:
-            return False, None, None, info
+            # below the knee point: with the default k_2 = inf the Gassner cycles are inf (documented, theorem
+            # gassner_haibach_below_knee_inf); a curve with a finite k_2 gets a finite number: the property's "scaled to any load level"
+            if not math.isfinite(k2) or info['max_all'] <= 0:
+                return False, None, None, info
+            info['below_knee'] = True
+            # what the faithful model proves for it (gassner_haibach_below_knee_damage): (max / SD)^(k_1 - k_2)
+            info['damage_below_knee_model'] = (info['max_all'] / SD) ** (k1 - k2)
         Ng = float(wc.gassner_miner_haibach.gassner_cycles(lc))
         rule_curve = wc.fatigue.miner_haibach()
         # what a lifetime multiple computed with the knee of the NATIVE curve would give (the value the faithful model proves,
@@ -640,7 +646,20 @@ def haibach_native_knee(d):
     return math.isfinite(pred) and abs(pred - 1.0) > 1e-9 and abs(float(d['observed']) - pred) <= 1e-6 * pred
 
 
-WITNESS_RULE = {'empty_top_class_elementary': 'elementary', 'haibach_native_knee': 'haibach'}
+def haibach_below_knee(d):
+    """Class of the known finding: Miner-Haibach Gassner cycles of a curve with a FINITE k_2 for a collective whose largest amplitude
+    (over all classes) lies below the knee point; the observed damage is what the faithful model proves
+    (gassner_haibach_below_knee_damage): (max / SD)^(k_1 - k_2) -- the lifetime multiple refers to the k_1 line extended below the
+    knee, cycles(max) is read on the k_2 branch."""
+    if d.get('rule') != 'haibach' or not d.get('below_knee'):
+        return False
+    if not float(d['max_all']) < float(d['SD_50']):
+        return False
+    pred = float(d['damage_below_knee_model'])
+    return math.isfinite(pred) and abs(float(d['observed']) - pred) <= 1e-6 * pred
+
+
+WITNESS_RULE = {'empty_top_class_elementary': 'elementary', 'haibach_native_knee': 'haibach', 'haibach_below_knee': 'haibach'}
 
 
 def witness_fails(entry):
@@ -672,6 +691,7 @@ def run(res, only_cases=None, with_eds=True):
     quick = res.tier == 'quick'
     res.classes['empty_top_class_elementary'] = empty_top_class_elementary
     res.classes['haibach_native_knee'] = haibach_native_knee
+    res.classes['haibach_below_knee'] = haibach_below_knee
     res.trusted += ['hand-written list model coq/theories/Strength/C11Model.v (tied to the code only through the per-run certificates on sampled inputs)',
                     'CoqInterval (interval tactic) + lra for the per-run certificates; float -> exact rational conversion',
                     'axioms: ClassicalDedekindReals.sig_forall_dec, sig_not_dec, functional_extensionality_dep (Coq Reals), Classical_Prop.classic']
